@@ -320,7 +320,18 @@ func Exec(b *rosmar.Bucket, c *rosmar.Collection, o *Op) (res Result) {
 		}
 	}()
 	var err error
-	body := o.Body
+	// The call gets a buffer of its own which is overwritten as soon as the call has returned, the way a caller
+	// re-using its buffer would: whatever rosmar keeps of the write (stored document, feed event) must not change.
+	var body []byte
+	if o.Body != nil {
+		body = append(make([]byte, 0, len(o.Body)), o.Body...)
+		scratch := body
+		defer func() {
+			for i := range scratch {
+				scratch[i] = '#'
+			}
+		}()
+	}
 	switch o.Kind {
 	case KAdd:
 		res.IsAdd = true
